@@ -54,3 +54,23 @@ package assertiontree
 //@ func checkCFGFixedPointRuntime
 //@ prop C07
 //@ ensures returns-only-within-the-round-bound (<= currRound (* 2 (* numBlocks numBlocks)))
+
+//@ -- C08: a pending (value, error)/(value, ok) guard is invalidated exactly when one member of the pair is reassigned
+//@ -- without the other. parseExpr / Equal are used as functions of their arguments (bodies not verified here).
+//@ func parseExpr
+//@ pure
+//@ nobody
+//@ func (*RootAssertionNode).Equal
+//@ pure
+//@ nobody
+//@ define (lhsIs r n k x) (let ((p (call parseExpr r (idx (. n Lhs) k)))) (and (not (isnil p)) (call |(*RootAssertionNode).Equal| r p x)))
+//@ define (assignsTo r n x) (exists ((k Int)) (and (<= 0 k) (< k (len (. n Lhs))) (lhsIs r n k x)))
+
+//@ func nodeAssignsOneWithoutOther
+//@ prop C08
+//@ ensures not-an-assignment (=> (not (is node *ast.AssignStmt)) (not result))
+//@ ensures one-assigned-and-other-not (=> (is node *ast.AssignStmt) (let ((n (as node *ast.AssignStmt)))
+//@    (= result (and (assignsTo rootNode n one) (not (assignsTo rootNode n other))))))
+//@ loop 0 invariant scanned-prefix (let ((n (as node *ast.AssignStmt))) (and (<= -1 rangeindex) (< rangeindex (len (. n Lhs)))
+//@    (= assignsOne (exists ((k Int)) (and (<= 0 k) (<= k rangeindex) (lhsIs rootNode n k one))))
+//@    (= assignsOther (exists ((k Int)) (and (<= 0 k) (<= k rangeindex) (lhsIs rootNode n k other))))))
